@@ -355,8 +355,13 @@ class Interp:
         if isinstance(op, (ast.In, ast.NotIn)):
             if isinstance(b, s.P.GlobalDict):
                 r = b.contains(a)
+            elif isinstance(a, bool) and isinstance(b, (list, tuple)) and any(isz(x) for x in b):
+                # `True in flags` with symbolic flags
+                r = simp(z3.Or(*[(B(x) if a else z3.Not(B(x))) for x in b if isz(x) or isinstance(x, bool)]))
             else:
                 r = any((x is a) or (not isz(x) and not isz(a) and type(x) == type(a) and x == a) for x in b)
+            if isz(r):
+                return r if isinstance(op, ast.In) else simp(z3.Not(r))
             return r if isinstance(op, ast.In) else (not r)
         f = CMP[type(op)]
         if isinstance(a, (tuple, list)) and isinstance(b, (tuple, list)):
